@@ -419,6 +419,9 @@ fn solve_generic_multi(
                 [1.0; 2],
                 &payoffs,
             );
+            // the frontier and cached payoffs are only valid for this iteration's strategies
+            work.clear();
+            payoffs.clear();
             chance_infosets.iter_mut().for_each(ChanceRecurse::advance);
             for (reg, infos) in regs.iter_mut().zip(player_infosets.iter_mut()) {
                 *reg = infos.iter_mut().map(|info| info.advance(it, params)).sum();
